@@ -30,6 +30,7 @@ EXPLANATION = (
     "unless both branches perform the same collective. R2 builds the tag/communicator tables. R3 checks the sentinel "
     "discipline of wildcard receives against what the MPI standard guarantees (non-overtaking per sender pair only). "
     "R4-R6 are CFG/def-use rules. Deadlock freedom in general and equality with the single-process run are NOT decided."
+    " R7 also requires that dispatcher and root-local fallback consume one shared one-shot iterator; R8-R11: pass-through iterators hand every item through on every rank, every non-root rank enters the worker loop, rank-divergent raises before collectives, contiguous buffers for upper-case collectives; R12: every path from a rank-guarded file write to the function exit passes a world barrier / broadcast; R3 folds the counting loop's test (false at 0 active senders); R6 checks the broadcast root."
 )
 ASSUMPTIONS = [
     "MPI guarantees non-overtaking only between one sender and one receiver on one communicator and tag; a wildcard receive may match any sender's pending message",
